@@ -306,7 +306,13 @@ def check_c18(m, tier, seed):
     env["CARGO_TARGET_DIR"] = os.path.join(m.BUILD, "typecheck")
     rc, out, _ = m.run(["cargo", "+nightly", "build", "--offline", "--quiet", "--features", "freeze"],
                        cwd=os.path.join(m.HARNESS, "typecheck"), env=env, timeout=900)
-    gate = {"auto_trait_assertions": 0}
+    if rc == 0:
+        # the same assertions against the library built without std (no_std + alloc)
+        env2 = dict(env)
+        env2["CARGO_TARGET_DIR"] = os.path.join(m.BUILD, "typecheck-nostd")
+        rc, out, _ = m.run(["cargo", "+nightly", "build", "--offline", "--quiet", "--no-default-features", "--features", "freeze"],
+                           cwd=os.path.join(m.HARNESS, "typecheck"), env=env2, timeout=900)
+    gate = {"auto_trait_assertions": 0, "library_configurations": ["std", "no_std+alloc"]}
     if rc != 0:
         errs = "\n".join(l for l in out.splitlines() if not l.startswith("warning"))
         # the only trait bounds in that crate are Send / Sync / Freeze
@@ -433,3 +439,106 @@ _old_register3 = register
 def register(m):  # noqa: F811
     _old_register3(m)
     m.CHECKS["C18"] = lambda tier, seed: check_c18(m, tier, seed)
+
+
+# --------------------------------------------------------------------------- sanitizer side-runs (C08, C11)
+
+def _asan_run(m, prop, tier, seed, cov):
+    """ASan + LeakSanitizer on a full-size W1 workload; any report block is a violation"""
+    import re
+    env = {"RUSTFLAGS": "-Zsanitizer=address -Cforce-frame-pointers=yes"}
+    try:
+        m.cargo_build(os.path.join(m.BUILD, "asan"), "dev", toolchain="nightly", extra_env=env,
+                      extra_args=("--target", "x86_64-unknown-linux-gnu"))
+    except m.Inconclusive as e:
+        cov["asan"] = {"available": False, "note": str(e)[-300:]}
+        m.say("[asan] build unavailable; skipped (not a verdict)")
+        return []
+    binary = m.mon_path(os.path.join(m.BUILD, "asan"), "dev", triple="x86_64-unknown-linux-gnu")
+    renv = dict(m.ENV)
+    renv["ASAN_OPTIONS"] = "detect_leaks=1:halt_on_error=1:abort_on_error=0:exitcode=77"
+    thorough = tier == "thorough"
+    extra = ["--small", "200000" if thorough else "20000", "--large", "3000" if thorough else "300", "--w2n", "0", "--offset", "1000000"]
+    rc, out, data, digs, dt = m.run_mon(binary, prop, tier, seed, "asan", extra=extra, env=renv)
+    reports = len(re.findall(r"ERROR: (AddressSanitizer|LeakSanitizer)", out))
+    cov["asan"] = {"available": True, "report_blocks": reports, "call_boundaries": (data or {}).get("call_boundaries", 0),
+                   "histories": (data or {}).get("histories", 0), "wall_s": round(dt, 1)}
+    m.say("[asan] %d histories, %d call boundaries, %d report blocks" % (cov["asan"]["histories"], cov["asan"]["call_boundaries"], reports))
+    viol, known, other = m.relay(out)
+    if reports:
+        os.makedirs(m.REPLAYS, exist_ok=True)
+        rp = os.path.join(m.REPLAYS, "%s-asan-report.txt" % prop)
+        with open(rp, "w") as f:
+            f.write("property=%s\nsignature=sanitizer/asan\nseed=%d\ncommand=%s %s\n\n%s" % (prop, seed, binary, " ".join(extra), out[-8000:]))
+        viol.append("VIOLATION property=%s replay=%s" % (prop, rp))
+    elif rc not in (0, 1):
+        cov["asan"]["note"] = "run ended with status %s without a sanitizer report: not a verdict" % rc
+    return viol
+
+
+def _miri_run(m, prop, tier, seed, cov, many_seeds=False):
+    """Miri (UB / leak / data-race interpreter) on small histories, sharded into parallel processes"""
+    import concurrent.futures, re
+    thorough = tier == "thorough"
+    env = dict(m.ENV)
+    env["CARGO_TARGET_DIR"] = os.path.join(m.BUILD, "miri")
+    nproc = 16 if thorough else 8
+    per = 4 if thorough else 1
+    flags = "-Zmiri-disable-isolation"
+
+    def one(k):
+        e = dict(env)
+        if many_seeds:
+            e["MIRIFLAGS"] = flags + " -Zmiri-many-seeds=%d..%d" % (k * 2, k * 2 + 2)
+        else:
+            e["MIRIFLAGS"] = flags
+        cmd = ["cargo", "+nightly", "miri", "run", "--offline", "--quiet", "--bin", "mon", "--", "--prop", prop, "--threads", "1",
+               "--small", str(per), "--large", "0", "--w2n", "0", "--no-w3", "--c13", "0", "--offset", str(2000000 + seed * 1000 + k * per),
+               "--seed", str(seed), "--replay-dir", m.REPLAYS, "--known", m.KNOWN, "--stall-secs", "600"]
+        return m.run(cmd, cwd=m.HARNESS, env=e, timeout=2400)
+
+    # first process alone so that the (shared) build happens once
+    first = one(0)
+    with concurrent.futures.ThreadPoolExecutor(max_workers=nproc) as ex:
+        rest = list(ex.map(one, range(1, nproc)))
+    results = [first] + rest
+    calls = 0
+    ub = []
+    viol = []
+    done = 0
+    for rc, out, dt in results:
+        for mm in re.finditer(r"^mon \S+ .* calls=(\d+)", out, re.M):
+            calls += int(mm.group(1))
+            done += 1
+        if "Undefined Behavior" in out or "memory leaked" in out or "Data race" in out:
+            ub.append(out)
+        v, known, other = m.relay(out)
+        viol += v
+    cov["miri"] = {"processes": nproc, "runs_completed": done, "call_boundaries": calls, "reports": len(ub),
+                   "flags": flags + (" -Zmiri-many-seeds (2 address/schedule seeds per process)" if many_seeds else "")}
+    m.say("[miri] %d processes, %d runs completed, %d call boundaries, %d reports" % (nproc, done, calls, len(ub)))
+    if ub:
+        os.makedirs(m.REPLAYS, exist_ok=True)
+        rp = os.path.join(m.REPLAYS, "%s-miri-report.txt" % prop)
+        with open(rp, "w") as f:
+            f.write("property=%s\nsignature=sanitizer/miri\nseed=%d\n\n%s" % (prop, seed, ub[0][-8000:]))
+        viol.append("VIOLATION property=%s replay=%s" % (prop, rp))
+    elif done == 0:
+        cov["miri"]["note"] = "no Miri run completed (tool unavailable?): not a verdict"
+    return viol
+
+
+_old_register4 = register
+
+
+def register(m):  # noqa: F811
+    _old_register4(m)
+    m.CHECKS["C08"] = lambda tier, seed: m.check_monitored(
+        "C08", tier, seed,
+        extra_parts=[lambda cov: _asan_run(m, "C08", tier, seed, cov), lambda cov: _miri_run(m, "C08", tier, seed, cov)],
+        extra_assumptions=["ASan/LeakSanitizer and Miri are second, independent oracles for leaked / doubly freed payloads on their own workloads; "
+                           "the drop table of the monitor stores integers only, so it cannot hide a block from them"])
+    m.CHECKS["C11"] = lambda tier, seed: m.check_monitored(
+        "C11", tier, seed, rule="readonly",
+        extra_parts=[lambda cov: _miri_run(m, "C11", tier, seed, cov, many_seeds=True)],
+        extra_assumptions=["Miri re-runs a small workload under different randomised base addresses (the only input of get_node_id's range test)"])
